@@ -1,5 +1,5 @@
 """Check framework: obligations, violations, floors/anchors (fail closed), known findings, evidence."""
-import json, os, sys, time, hashlib, collections, importlib, traceback
+import json, os, re, sys, time, hashlib, collections, importlib, traceback
 
 from . import extract
 from .facts import Program
@@ -38,14 +38,32 @@ class Ctx:
         self.bodies_analysed = set()
         self.call_sites = 0
         self._keys = collections.Counter()
+        self._impl_map = None
         self.assumptions = []
 
     # --- recording --------------------------------------------------------
     def rule(self, rid, text):
         self.rules_run.setdefault(rid, {"text": text, "instances": 0, "violations": 0})
 
+    def _stable(self, text):
+        """replace rustc's positional `{impl#N}` disambiguators by the impl's self type (and trait), so that keys do not
+        change when an unrelated impl block is added to the module"""
+        if "{impl#" not in text:
+            return text
+        if self._impl_map is None:
+            m = {}
+            for im in self.prog.impls:
+                st = re.sub(r"<.*$", "", (im.get("self_ty") or "?")).split("::")[-1]
+                tr = (im.get("trait") or "").split("::")[-1]
+                mod = im["id"].rsplit("::", 1)[0]
+                m[im["id"]] = "%s::<%s%s>" % (mod, st, (" as " + tr) if tr else "")
+            self._impl_map = m
+        def rep(mo):
+            return self._impl_map.get(mo.group(0), mo.group(0))
+        return re.sub(r"[A-Za-z_][A-Za-z0-9_]*(?:::[A-Za-z_][A-Za-z0-9_]*)*::\{impl#\d+\}", rep, text)
+
     def _mk_key(self, rule, parts):
-        base = "|".join([rule] + [str(p) for p in parts])
+        base = self._stable("|".join([rule] + [str(p) for p in parts]))
         n = self._keys[base]
         self._keys[base] += 1
         return base if n == 0 else "%s|#%d" % (base, n)
